@@ -35,6 +35,11 @@ def jobs(tier):
                  assumes=["transport already authenticated", "live-message byte and fd limits not reached", "no SASL encoding layer (needs_decoding false)"],
                  bounds="0..3 framed messages, corrupt or intact, leftover handshake bytes 0..100 (recovered before or not), any combination of allocation failures",
                  shape="transport drain of framed messages"))
+    for fr in (0, 1, 2):
+        J.append(Job(name=f"L6.read_hint.F{fr}", group="C11.L6", harness="harness/C11_loader.c", defines={"FRAMES": fr, "GETBUF": 1, "VF_SKIP_FINDINGS": 1}, real=["dbus/dbus-list.c"], env=["assert_stubs.c", "pool_lock.c", "memfuncs.c"],
+                     checks="assert", unwind=6, timeout=600, mem_gb=16, encodes=["_dbus_message_loader_get_buffer"],
+                     stubs=["DBusString = length-only ghost", "_dbus_header_have_message_untrusted = symbolic frames under the contract of C01.a"],
+                     bounds=f"{fr} complete frame(s) buffered + 0..15 or more bytes of a partial one; 0..8 descriptors held; lengths up to 4096", shape=f"read-size hint behind {fr} frame(s)"))
     for e, nm in ((0, "handle_watch"), (1, "do_iteration")):
         J.append(Job(name=f"L5.socket.{nm}", group="C11.L5", harness="harness/C11_socket.c", defines={"ENTRY": e}, env=["assert_stubs.c"], checks="assert", unwind=8, timeout=600,
                      extra=["--object-bits", "12"],
